@@ -18,7 +18,7 @@ META = {
                   "typelib.ctx.TypeContext", "typelib.py.inspection.args/normalize_typevar/isunresolvable/origin",
                   "typelib.*.routines.*.__init__ (context lookups)"],
     "bounds": {
-        "quick": "36 leaves (int, str, None, Any, object, bare list/dict/tuple/set/frozenset, typing.List/Dict/Tuple/Set/FrozenSet/Sequence/Mapping/MutableMapping/Collection/Iterable/Deque, hint-less classes with a C constructor (Exception / tzinfo subclasses), TypeVar free/bound/constrained, "
+        "quick": "39 leaves (PEP 604 unions of plain classes, int, str, None, Any, object, bare list/dict/tuple/set/frozenset, typing.List/Dict/Tuple/Set/FrozenSet/Sequence/Mapping/MutableMapping/Collection/Iterable/Deque, hint-less classes with a C constructor (Exception / tzinfo subclasses), TypeVar free/bound/constrained, "
                  "a class without hints, a bare and a parameterised user Generic, a dataclass, Callable, type, Decimal, date, Literal, "
                  "Enum) under 14 constructors (list, set, dict[str,.], tuple[., ...], tuple[., .], Optional, Union[., .], Sequence, "
                  "Mapping[str,.], Box[.], Callable[[.], .], type[.], Final, two variadic tuples): depth 1 exhaustively, depth 2 for every "
@@ -70,6 +70,8 @@ def leaves():
         ("frozenset", frozenset), ("Tuple", t.Tuple), ("Set", t.Set), ("FrozenSet", t.FrozenSet), ("Sequence", t.Sequence),
         ("Mapping", t.Mapping), ("MutableMapping", t.MutableMapping), ("Collection", t.Collection), ("Iterable", t.Iterable),
         ("Deque", t.Deque), ("AppError", AppError), ("Zone", Zone),
+        # PEP 604 unions of plain classes (their text has no bracket)
+        ("int|str", int | str), ("int|None", int | None), ("NoHints|None", NoHints | None),
     ]
 
 
@@ -80,7 +82,7 @@ class _Opaque:
 
 def _bare_value(T):
     """A container of the bare annotation's class with members no routine can convert, or None for other leaves."""
-    a, b = _Opaque(), _Opaque()
+    a, b = _Opaque(), b"\xff raw"
     o = t.get_origin(T) or T
     import collections
     import collections.abc as abc
@@ -210,13 +212,13 @@ def check(name, T):
             return (f"construction_failed:{type(e).__name__}", _where(e), _d(what, name, e))
     # pass-through at an unresolvable root
     if T in (t.Any, object, T_free, t.Callable) :
-        s = object()
-        for what in ("marshaller", "unmarshaller"):
-            try:
-                if built[what](s) is not s:
-                    return ("unresolvable_root_not_passthrough:" + what, name, "")
-            except Exception as e:  # noqa: BLE001
-                return ("unresolvable_root_raises:" + what, name, _d(e))
+        for s in (object(), b"raw \xe2\x82\xac", b"\xff\xfe", bytearray(b"ab"), memoryview(b"cd"), "text", 7, None, [1], {"k": b"v"}):
+            for what in ("marshaller", "unmarshaller"):
+                try:
+                    if built[what](s) is not s:
+                        return ("unresolvable_root_not_passthrough:" + what, name, _d(type(s).__name__))
+                except Exception as e:  # noqa: BLE001
+                    return ("unresolvable_root_raises:" + what, name, _d(type(s).__name__, e))
     r = check_bare(name, T, built)
     if r is not None:
         return r
